@@ -347,8 +347,8 @@ pub fn property() -> Property {
         rule: "proptest: (a) timestamps (limit-biased seconds x all nine sub-second precisions and arbitrary fractions), their civil Date/Time/DateTime at arbitrary offsets, Display/FromStr and DateTimePrinter options (precision None/0..9, separator, lowercase), display_with_offset; (b) Zoned in every zone reachable by name through the global database (read from the same files by the reference reader), whole-minute fixed offsets and UTC, at instants around every transition and, for 35% of cases, placed inside the fold of the probed transition on the earlier or the later pass. Oracle: parse(print(v)) equals v (instant, civil fields, offset, zone), reduced precision = truncation, and an independent RFC 3339 reader written from the ABNF decodes the printed prefix to the same instant (sub-minute offsets: same civil time and an offset rounded to the minute). Non-trivial: fractional or negative instants, reduced precision, folds, sub-minute offsets.",
         assumptions: &["the global database resolves names from /usr/share/zoneinfo (TZDIR unset)", "years outside 0..=9999 use jiff's documented signed six-digit form, which the independent reader accepts as an extension"],
         checks: vec![
-            Box::new(Prop { name: "c09.civil", quick: 600_000, thorough: 20_000_000, strategy: strat_civil, test: test_civil }),
-            Box::new(Prop { name: "c09.zoned", quick: 800_000, thorough: 30_000_000, strategy: strat_zoned, test: test_zoned }),
+            Box::new(Prop { name: "c09.civil", quick: 2_400_000, thorough: 20_000_000, strategy: strat_civil, test: test_civil }),
+            Box::new(Prop { name: "c09.zoned", quick: 3_200_000, thorough: 30_000_000, strategy: strat_zoned, test: test_zoned }),
         ],
         floors: |rec| {
             rec.floor("c09.zoned:in-fold", "c09.zoned:cases", 0.05);
